@@ -41,6 +41,46 @@ func hasReturnToken(toks []refTok) bool {
 	return false
 }
 
+// beforeTopLevelReturn tokenises up to the first OP_RETURN met with the IF/NOTIF/ENDIF block
+// counter at zero. cut: there is one; wellFormed: every token in front of it is complete.
+func beforeTopLevelReturn(b []byte) (wellFormed, cut bool) {
+	depth, i := 0, 0
+	for i < len(b) {
+		op := b[i]
+		switch {
+		case op == 0x63 || op == 0x64:
+			depth++
+		case op == 0x68:
+			depth--
+		case op == 0x6a && depth == 0:
+			return true, true
+		}
+		n := 1
+		switch {
+		case op >= 1 && op <= 75:
+			n = 1 + int(op)
+		case op == 0x4c || op == 0x4d || op == 0x4e:
+			w := map[byte]int{0x4c: 1, 0x4d: 2, 0x4e: 4}[op]
+			if i+1+w > len(b) {
+				return false, false
+			}
+			l := 0
+			for k := w - 1; k >= 0; k-- {
+				l = l<<8 | int(b[i+1+k])
+			}
+			n = 1 + w + l
+			if l < 0 {
+				return false, false
+			}
+		}
+		if i+n > len(b) {
+			return false, false
+		}
+		i += n
+	}
+	return true, false
+}
+
 func c13ScriptCheck(c c13Script) (fs []rep.Finding) {
 	raw := []byte(c.Script)
 	keep := append([]byte(nil), raw...)
@@ -156,6 +196,17 @@ func c13ScriptCheck(c c13Script) (fs []rep.Finding) {
 			if up, uerr := pe.Unparse(pse); uerr != nil || !bytes.Equal(*up, raw) || len(pse) != len(ps) {
 				fs = append(fs, rep.F("Parse|ErrorOnCheckSig-disagrees", "the strict parser tokenises the script differently"))
 			}
+		}
+	}
+	// the interpreter's parser stops tokenising at an OP_RETURN outside every IF/NOTIF..ENDIF
+	// (block counter zero) and keeps the rest as one opaque blob: what comes before must be
+	// well-formed, what comes after need not be
+	if pre, cut := beforeTopLevelReturn(raw); cut {
+		if pre && perr != nil {
+			fs = append(fs, rep.F("Parse|rejects-script-with-return-tail", "a script that is well-formed up to its top-level OP_RETURN was rejected: "+perr.Error()))
+		}
+		if !pre && perr == nil {
+			fs = append(fs, rep.F("Parse|accepts-truncated-push", "a truncated push in front of the top-level OP_RETURN was not reported"))
 		}
 	}
 	if !ok && !retTok && perr == nil {
@@ -353,7 +404,7 @@ func trunc(s string) string {
 
 func init() {
 	p := register(&Prop{ID: "C13", Level: "exploration",
-		Rule: "exhaustive: (scripts) every byte string of length<=2 plus length 3 over a 64-symbol alphabet (quick) / every byte string of length<=3 (thorough), and every truncation at every position of 40 longer well-formed scripts, through DecodeParts, Parse/Unparse, hex and JSON against the reference tokenizer; (parts) every list of <=3 items with lengths in {1,2,75,76,255,256,65535,65536} x 3 fill patterns through EncodeParts/PushDataPrefix/DecodeParts/AppendPushDataArray/Parse; (asm) every sequence of length<=2 (quick) / <=3 (thorough) over {all 178 non-push opcode bytes, minimal pushes of 2,3,75,76,255,256 bytes} that is not a data script through ToASM/NewFromASM. distinct_nontrivial = distinct (token count, well-formedness, has-return) classes x length for scripts + distinct part-length vectors + distinct asm strings",
+		Rule: "exhaustive: (scripts) every byte string of length<=2 plus length 3 over a 68-symbol alphabet (quick) / every byte string of length<=3 (thorough), every string of length 4 (thorough: 5) over a 14-symbol control-flow / OP_RETURN / push-header alphabet, and every truncation at every position of 40 longer well-formed scripts, through DecodeParts, Parse/Unparse, hex and JSON against the reference tokenizer; (parts) every list of <=3 items with lengths in {1,2,75,76,255,256,65535,65536} x 3 fill patterns through EncodeParts/PushDataPrefix/DecodeParts/AppendPushDataArray/Parse; (asm) every sequence of length<=2 (quick) / <=3 (thorough) over {all 178 non-push opcode bytes, minimal pushes of 2,3,75,76,255,256 bytes} that is not a data script through ToASM/NewFromASM. distinct_nontrivial = distinct (token count, well-formedness, has-return) classes x length for scripts + distinct part-length vectors + distinct asm strings",
 	})
 	sS := NewSpace(p, "scripts", c13ScriptCheck)
 	sP := NewSpace(p, "parts", c13PartsCheck)
@@ -385,7 +436,7 @@ func init() {
 		} else {
 			var alpha []byte
 			for b := 0; b < 256; b++ {
-				if b <= 4 || (b >= 0x4a && b <= 0x53) || b == 0x63 || b == 0x67 || b == 0x68 || b == 0x6a || b == 0xab || b == 0xac || b == 0xff || b%16 == 7 {
+				if b <= 4 || (b >= 0x4a && b <= 0x53) || (b >= 0x63 && b <= 0x68) || b == 0x6a || b == 0xab || b == 0xac || b == 0xff || b%16 == 7 {
 					alpha = append(alpha, byte(b))
 				}
 			}
@@ -394,6 +445,26 @@ func init() {
 				return c13Script{[]byte{alpha[i/(na*na)], alpha[i/na%na], alpha[i%na]}}
 			})
 			r.Note("len3_alphabet", len(alpha))
+		}
+		// length 4 and 5 over the control-flow / OP_RETURN / push-header alphabet
+		ctl := []byte{0x00, 0x01, 0x05, 0x4c, 0x4e, 0x51, 0x63, 0x64, 0x65, 0x66, 0x67, 0x68, 0x6a, 0xac}
+		for l := 4; l <= 5; l++ {
+			if l == 5 && !thorough {
+				break
+			}
+			n := uint64(1)
+			for i := 0; i < l; i++ {
+				n *= uint64(len(ctl))
+			}
+			ll := l
+			sp.Indexed(r, n, func(i uint64) c13Script {
+				b := make([]byte, ll)
+				for k := ll - 1; k >= 0; k-- {
+					b[k] = ctl[i%uint64(len(ctl))]
+					i /= uint64(len(ctl))
+				}
+				return c13Script{b}
+			})
 		}
 		// truncations of longer well-formed scripts
 		var long [][]byte
